@@ -46,6 +46,16 @@ func Group(services *fun.Iterator[*Service]) *Service {
 			}
 			wg.Wait(ctx)
 			ec.Add(waiters.Close())
+
+			// the context the members were started with ends
+			// when this function returns: leave them running
+			// until they have all returned (which they do by
+			// themselves, or because the group's context was
+			// canceled or the group was closed.)
+			members := waiters.Iterator()
+			for members.Next(context.Background()) {
+				_ = members.Value()()
+			}
 			return nil
 		},
 		Cleanup: func() error {
